@@ -730,7 +730,7 @@ def items(tier: str, seed: int) -> List[Dict[str, Any]]:
                 if quick and ((k1, k2) not in mq or (eng == 0 and (k1, k2) not in mq[:3])):
                     continue
                 for (c1, f1) in ([(6, False)] if quick or eng == 0 else [(6, False), (15, True)]):
-                    for gap in ((3,) if quick or eng == 0 else (0, 3, 11)):
+                    for gap in ((3,) if quick or eng == 0 or c1 != 6 else (0, 3, 11)):
                         out.append({"ob": "multi_invoke", "params": {"eng": eng, "k1": k1, "k2": k2, "c1": c1, "f1": f1, "gap": gap, "a": 8},
                                     "timeout": 300 if quick else 900, "path_timeout": 60,
                                     "label": f"multi_invoke[{'sync' if eng == 0 else 'async'},{k1},{k2},c1={c1},f1={int(f1)},gap={gap}]"})
